@@ -31,12 +31,16 @@ pub struct PipeEnd {
     /// transit time on the virtual clock: bytes that arrive while the reader waits are handed over this
     /// much later (bytes already waiting when the reader comes back are handed over at once)
     latency_ms: u64,
+    /// every chunk (not only the first after a pause) takes the transit time: a frame larger than the read limit
+    /// arrives in pieces with a stall in the middle
+    trickle: bool,
 }
 
 struct LimitedRead<R> {
     inner: R,
     limit: usize,
     latency_ms: u64,
+    trickle: bool,
     /// the reader was waiting for data (so what comes next is fresh off the wire)
     idle: bool,
     in_transit: Option<(Vec<u8>, Pin<Box<dyn std::future::Future<Output = ()> + Send>>)>,
@@ -59,7 +63,7 @@ impl<R: AsyncRead + Unpin> AsyncRead for LimitedRead<R> {
                     let rest = std::mem::take(bytes);
                     this.in_transit = Some((rest, Box::pin(async {})));
                 }
-                this.idle = false;
+                this.idle = this.trickle;
                 return Poll::Ready(Ok(()));
             }
             if this.idle {
@@ -84,7 +88,7 @@ impl<R: AsyncRead + Unpin> AsyncRead for LimitedRead<R> {
         }
         let r = self.as_mut().poll_read_now(cx, buf);
         // nothing buffered any more: whatever arrives next is fresh off the wire
-        self.idle = r.is_pending();
+        self.idle = r.is_pending() || self.trickle;
         r
     }
 }
@@ -111,8 +115,9 @@ impl ClusterBidiStream for PipeEnd {
     fn split(self: Box<Self>) -> (BoxRead, BoxWrite) {
         let limit = self.read_limit;
         let latency_ms = self.latency_ms;
+        let trickle = self.trickle;
         let (r, w) = tokio::io::split(self.stream);
-        (Box::new(LimitedRead { inner: r, limit, latency_ms, idle: true, in_transit: None }), Box::new(w))
+        (Box::new(LimitedRead { inner: r, limit, latency_ms, trickle, idle: true, in_transit: None }), Box::new(w))
     }
     fn peer_label(&self) -> Option<String> {
         Some(self.label.clone())
@@ -129,9 +134,17 @@ pub fn pipe(label: &str, read_limit: usize) -> (PipeEnd, PipeEnd) {
 pub fn slow_pipe(label: &str, read_limit: usize, latency_ms: u64) -> (PipeEnd, PipeEnd) {
     let (a, b) = tokio::io::duplex(1 << 16);
     (
-        PipeEnd { stream: a, label: label.to_string(), read_limit, latency_ms },
-        PipeEnd { stream: b, label: label.to_string(), read_limit, latency_ms },
+        PipeEnd { stream: a, label: label.to_string(), read_limit, latency_ms, trickle: false },
+        PipeEnd { stream: b, label: label.to_string(), read_limit, latency_ms, trickle: false },
     )
+}
+
+/// every chunk of at most `read_limit` bytes takes `latency_ms` to arrive
+pub fn trickle_pipe(label: &str, read_limit: usize, latency_ms: u64) -> (PipeEnd, PipeEnd) {
+    let (mut a, mut b) = slow_pipe(label, read_limit, latency_ms);
+    a.trickle = true;
+    b.trickle = true;
+    (a, b)
 }
 
 /// the harness side of a pipe: frames in, frames out
@@ -233,7 +246,21 @@ pub struct LocalOnly {
     pub log: L,
 }
 pub struct NotSerializable(pub u32);
-impl Message for NotSerializable {}
+/// It declares itself not serializable (so its actor does not support remote messaging and is never
+/// advertised), but it would decode whatever reached it: what keeps a peer's frames away from its actor is the
+/// session's gate, not a failing decoder.
+impl Message for NotSerializable {
+    fn serializable() -> bool {
+        false
+    }
+    fn deserialize(bytes: SerializedMessage) -> Result<Self, ractor::message::BoxedDowncastErr> {
+        match bytes {
+            SerializedMessage::Cast { .. } => Ok(NotSerializable(1)),
+            SerializedMessage::Call { .. } => Ok(NotSerializable(2)),
+            _ => Err(ractor::message::BoxedDowncastErr),
+        }
+    }
+}
 impl Actor for LocalOnly {
     type Msg = NotSerializable;
     type State = ();
@@ -676,6 +703,35 @@ fn post_auth_body(is_server: bool, wrong_cookie: bool) -> vsched::Body {
                     bad.push("a non-remotable local actor was advertised".into());
                 }
             }
+            // actors that appear AFTER the session is ready: the peer guesses their pids (pids are sequential); only
+            // the remotable one is reachable
+            let late_log: L = Arc::new(Mutex::new(vec![]));
+            let (lo2, lo2h) = Actor::spawn(None, LocalOnly { log: late_log.clone() }, ()).await.expect("late local-only actor");
+            let (p2, p2h) = Actor::spawn(None, Probe { log: late_log.clone(), tag: "P2", reply_delay_ms: 0 }, ()).await.expect("late remotable actor");
+            vsched::quiesce();
+            while peer.recv().await.is_some() {}
+            for (i, to) in [lo2.get_id().pid(), p2.get_id().pid()].into_iter().enumerate() {
+                let _ = peer.send(&frame_for(Sym::Cast, to).unwrap()).await;
+                let mut call = frame_for(Sym::Call, to).unwrap();
+                if let Some(proto::meta::network_message::Message::Node(n)) = &mut call.message {
+                    if let Some(pn::node_message::Msg::Call(c)) = &mut n.msg {
+                        c.tag = 200 + i as u64;
+                    }
+                }
+                let _ = peer.send(&call).await;
+            }
+            vsched::quiesce();
+            let ll = late_log.lock().unwrap().clone();
+            if ll.iter().any(|e| e.starts_with("local-only")) {
+                bad.push(format!("a local actor that does not support remote messaging, spawned after the session was ready, handled a peer's message: {ll:?}"));
+            }
+            if ll.iter().filter(|e| e.starts_with("P2:")).count() != 2 {
+                bad.push(format!("the remotable actor spawned after the session was ready must receive the peer's cast and call: {ll:?}"));
+            }
+            lo2.stop(None);
+            p2.stop(None);
+            let _ = lo2h.await;
+            let _ = p2h.await;
         }
         peer.close().await;
         vsched::quiesce();
@@ -1789,6 +1845,44 @@ fn c20_slow_start_body(instant: bool) -> vsched::Body {
     })
 }
 
+/// A link on which every few bytes take more than a second: the handshake frames arrive in pieces with stalls in
+/// the middle that outlast any timer inside a session. The handshake still completes, on both sides, and nobody
+/// hangs up. (The run ends right after both sides are ready: from then on the sessions' ping loops, whose period
+/// is drawn from `rand`, would make the run depend on something the scheduler does not own.)
+fn c20_trickle_body(read_limit: usize, latency_ms: u64) -> vsched::Body {
+    with_rt(move || async move {
+        let t = two_nodes().await;
+        let (x, y) = trickle_pipe("pipe-ab", read_limit, latency_ms);
+        let _ = t.a.server.cast(NodeServerMessage::ConnectionOpenedExternal { stream: Box::new(x), is_server: false });
+        let _ = t.b.server.cast(NodeServerMessage::ConnectionOpenedExternal { stream: Box::new(y), is_server: true });
+        let mut ready = 0usize;
+        let mut waited = 0u64;
+        for _ in 0..400 {
+            vsched::sleep(Duration::from_millis(300)).await;
+            waited += 300;
+            let ev = t.events.lock().unwrap().clone();
+            ready = ev.iter().filter(|e| e.contains(":ready")).count();
+            if ready == 2 || ev.iter().any(|e| e.contains(":disconnected")) {
+                break;
+            }
+        }
+        let ev = t.events.lock().unwrap().clone();
+        let mut bad = Vec::new();
+        if ready != 2 {
+            bad.push(format!("over a link that delivers {read_limit} bytes every {latency_ms} ms the two nodes did not both become ready within {waited} ms: {ev:?}"));
+        }
+        if ev.iter().any(|e| e.contains(":disconnected")) {
+            bad.push(format!("a session was closed although the connection was never lost: {ev:?}"));
+        }
+        let key = format!("ready={ready}");
+        for n in [t.a, t.b] {
+            n.server.stop(None);
+            let _ = n.handle.await;
+        }
+        Outcome { key, violations: bad }
+    })
+}
+
 /// A call times out at the caller while the request is still under way / the real actor still thinks
 /// (transit takes time, so the peer's deadline ends later than the caller's); the next caller on the same
 /// remote reference must get its own answer, not the late answer to the abandoned call.
@@ -2018,6 +2112,12 @@ pub fn c20_units(thorough: bool) -> Vec<Unit> {
     }
     for (lat, think, pause) in late {
         v.push(Unit::explore_split(Job::new(format!("remote-late/lat{lat}/think{think}/pause{pause}"), cfg.clone(), Some(if thorough { 2 } else { 1 }), c20_late_body(lat, think, pause)), 4));
+    }
+    // frames that arrive in pieces with stalls of seconds in the middle
+    for (rl, lat) in [(16usize, 1200u64), (7, 1100)] {
+        let mut c = cfg.clone();
+        c.max_virtual_ns = 150_000_000_000;
+        v.push(Unit::explore(Job::new(format!("remote-trickle/read{rl}/every{lat}ms"), c, Some(if thorough { 1 } else { 0 }), c20_trickle_body(rl, lat))));
     }
     // an actor that is advertised (through the group it joins in pre_start) while it is still starting
     for instant in [false, true] {
